@@ -20,6 +20,7 @@ import RubatoProofs.Async.FixedInHistory
 import RubatoProofs.Fft.Control
 import RubatoProofs.Lemmas.FormulaTie
 import RubatoProofs.Lemmas.DivBridge
+import RubatoProofs.Lemmas.StorageTie
 
 set_option linter.unusedSectionVars false
 set_option linter.unusedVariables false
@@ -292,5 +293,27 @@ theorem f32_divisions_are_exact_below_2_pow_24 {rnd : ℚ → ℚ} (hr : DivBrid
     (DivBridge.ofRounding rnd).cdiv a b = DivArith.exact.cdiv a b ∧
     (DivBridge.ofRounding rnd).fdiv a b = DivArith.exact.fdiv a b :=
   DivBridge.ofRounding_eq_exact hr a b ha hb
+
+end Rubato.C07
+
+namespace Rubato.C07
+open Rubato Rubato.Gen
+
+/-- tie G18: the two counts every asynchronous call reports — the quantities this property adds up — are the source text:
+`(chunk_size, n)` for the fixed-input types (`n` = frames the loop produced), `(needed_input_size as read before the next
+request is computed, chunk_size)` for the fixed-output types; and the ratio a call leaves behind is its target. -/
+theorem async_reported_counts_are_the_source_text {ρ : Type} [RNum ρ] (target : ρ) (chunk n used needed : Nat) :
+    (Tail.fastIn_ret_in (ρ := ρ) chunk = chunk ∧ Tail.fastIn_ret_out (ρ := ρ) n = n ∧
+     Tail.sincIn_ret_in (ρ := ρ) chunk = chunk ∧ Tail.sincIn_ret_out (ρ := ρ) n = n) ∧
+    (Tail.fastOut_ret_in (ρ := ρ) used = used ∧ Tail.fastOut_ret_out (ρ := ρ) chunk = chunk ∧
+     Tail.fastOut_used (ρ := ρ) needed = needed ∧
+     Tail.sincOut_ret_in (ρ := ρ) used = used ∧ Tail.sincOut_ret_out (ρ := ρ) chunk = chunk ∧
+     Tail.sincOut_used (ρ := ρ) needed = needed) ∧
+    (Tail.fastIn_ratio_after target = target ∧ Tail.fastOut_ratio_after target = target ∧
+     Tail.sincIn_ratio_after target = target ∧ Tail.sincOut_ratio_after target = target) ∧
+    Tail.tailParams.lookup "fastOut_used" = some ["needed_input_size"] ∧
+    Tail.tailParams.lookup "sincOut_used" = some ["needed_input_size"] ∧
+    Tail.tailParams.lookup "sincOut_ret_in" = some ["input_frames_used"] :=
+  ⟨⟨rfl, rfl, rfl, rfl⟩, ⟨rfl, rfl, rfl, rfl, rfl, rfl⟩, ⟨rfl, rfl, rfl, rfl⟩, by decide, by decide, by decide⟩
 
 end Rubato.C07
